@@ -242,7 +242,7 @@ pub fn gen(prop: &str, tier: &str, seed: u64, out: &mut Vec<String>) {
             }
         }
         _ => {
-            eprintln!("no generator for {prop}");
+
         }
     }
 }
